@@ -24,7 +24,7 @@ def replay(ctx):
     d = vlib.json.load(open(ctx.replay))["replay"]
     binary = vlib.go_build(ctx, "drv_fallback")
     if d.get("beh"):
-        job = {"behaviours": [d["beh"]] * 5, "random": 0, "threshold_ms": 120, "workers": 1}
+        job = {"behaviours": [d["beh"]] * 5, "random": 0, "threshold_ms": 120, "stretch_ms": 300, "workers": 1}
     else:
         job = {"behaviours": [], "random": 300, "threshold_ms": 120, "workers": 16}
     recs, _ = vlib.run_driver(ctx, binary, stdin_obj=job)
@@ -48,9 +48,12 @@ def run(ctx):
         "harness primary/secondary ignore their context; Go timers and channel FIFO order are trusted",
         "TimerFire is unobservable: events logged before threshold/2 carry early=TRUE and forbid an earlier TimerFire; "
         "with the long threshold (30 s) TimerFire is disabled in the trace spec",
+        "real-time urgency: an event logged later than threshold + max(0.4*threshold, 150 ms) after the call started (late=TRUE) "
+        "requires the timer to have fired and a secondary that entered its select before the threshold to have left it; "
+        "such rejections are re-confirmed 3x serially (>= 2 must reproduce)",
     ]
     # ---- leg A
-    vlib.tlc_mc(ctx, "Fallback", "Fallback_design.cfg", label="design (queue answer, then signal): C20 invariants + liveness")
+    vlib.tlc_mc(ctx, "Fallback", "Fallback_design.cfg", label="design (queue answer, then signal): C20 invariants + liveness", coverage=True)
     nv = vlib.run_tlc(ctx, "Fallback", "Fallback_pinned.cfg", expect_violation=True, workers=1)
     if nv["violated"] != "PrimaryWins":
         raise vlib.Infra("non-vacuity run: expected PrimaryWins to fail for signal-first order, got %r" % nv["violated"])
@@ -75,7 +78,7 @@ def run(ctx):
         len(behs), exhaustive_order, len(tb), len(cb)))
 
     binary = vlib.go_build(ctx, "drv_fallback")
-    job = {"behaviours": behs, "random": 1500 if T else 300, "threshold_ms": 120, "workers": 16}
+    job = {"behaviours": behs, "random": 1500 if T else 300, "threshold_ms": 120, "stretch_ms": 300, "workers": 16}
     recs, _ = vlib.run_driver(ctx, binary, stdin_obj=job, timeout=1500)
     if len(recs) != len(behs) + job["random"]:
         raise vlib.Infra("driver returned %d results for %d jobs" % (len(recs), len(behs) + job["random"]))
@@ -101,6 +104,17 @@ def run(ctx):
     for idx, info in rej:
         r = recs[idx]
         sig = signature(r["events"])
+        ev = info.get("event") or {}
+        if ev.get("late") and r.get("beh"):
+            # rejected because of a real-time claim: re-confirm serially (a scheduler stall must not raise an alarm)
+            rr, _ = vlib.run_driver(ctx, binary, stdin_obj={"behaviours": [r["beh"]] * 3, "random": 0, "threshold_ms": 120,
+                                                           "stretch_ms": 300, "workers": 1})
+            _, rej2 = vlib.validate_traces(ctx, "Fallback_Trace", "Fallback_Trace.cfg", [x["events"] for x in rr])
+            ctx.cov.setdefault("timing_reconfirmations", []).append({"signature": sig, "rejected_again": len(rej2), "of": 3})
+            if len(rej2) < 2:
+                log("timing-based rejection not reproduced (%d/3): treated as a scheduler stall, not a violation" % len(rej2))
+                continue
+            sig += ":threshold-not-counted-from-call-start"
         ctx.violation(sig, "real trace is not a behaviour of Fallback.tla satisfying C20 (rejected at event %s: %s)" % (
             info.get("line_in_trace"), info.get("event")), r)
     # binding self-check: flip the logged result of an accepted trace, drop a logged wake reason
